@@ -131,6 +131,14 @@ def toVtk (f : Fld) : M Grid :=
              coords := tab 3 fun a => f.mesh.vertices.getD a [],
              cell := cellData f }
 
+/-- the active attributes `to_vtk` sets on the cell data, `(scalars, vectors)`:
+`SetActiveVectors("field")` for three components, `SetActiveScalars("field")` for one, nothing
+otherwise (what a viewer colours by / draws arrows for by default) -/
+def activeAttr (f : Fld) : Option String × Option String :=
+  if f.nvdim = 3 then (none, some "field")
+  else if f.nvdim = 1 then (some "field", none)
+  else (none, none)
+
 /-! ## `Field` constructor on the array path (what both readers call) -/
 
 /-- `vdims` setter on a fresh field (names colliding with `Field` attributes are not
@@ -396,6 +404,78 @@ def readVtk (g : Grid) (lines : List LLine) (sidecar : Option (List (String × R
 
 def fromFile (v : VFile) : M Fld := readVtk v.grid [] v.sidecar
 
+/-! ## a directory: histories of `to_file` / `from_file` calls on file names
+
+`_to_vtk` writes `<name>` (always) and `<name>.subregions.json` (only when asked for and the
+mesh has subregions; an existing side-car of that name is **left as it is** otherwise);
+`_from_vtk` reads `<name>` and, when it exists, `<name>.subregions.json`.  Nothing else is
+kept between calls: no reader or writer object outlives a call. -/
+
+/-- `<name>` as a VTK reader returns it / as the legacy reader tokenises it -/
+structure VtkFile where
+  grid : Grid
+  lines : List LLine
+  deriving DecidableEq, Repr, Inhabited
+
+/-- the files of a directory the VTK code touches, by name -/
+structure Dir where
+  vtk : List (String × VtkFile)
+  json : List (String × List (String × Region))
+  deriving DecidableEq, Repr, Inhabited
+
+/-- create or overwrite the file called `k` -/
+def put {α : Type} : List (String × α) → String → α → List (String × α)
+  | [], k, v => [(k, v)]
+  | p :: l, k, v => if p.1 = k then (k, v) :: l else p :: put l k v
+
+/-- content of the file called `k`, if it exists -/
+def look {α : Type} (l : List (String × α)) (k : String) : Option α := (l.find? fun p => p.1 == k).map (·.2)
+
+/-- `field.to_file(name, representation, save_subregions)` in directory `d`: a rejected call
+writes nothing -/
+def Dir.write (d : Dir) (name : String) (f : Fld) (rep : String) (save : Bool) (rnd : Rat → Rat) : M Dir :=
+  match toFile f rep save rnd with
+  | .error e => .error e
+  | .ok v =>
+    .ok { vtk := put d.vtk name ⟨v.grid, []⟩,
+          json := match v.sidecar with
+                  | some s => put d.json name s
+                  | none => d.json }
+
+/-- `Field.from_file(name)` in directory `d` -/
+def Dir.read (d : Dir) (name : String) : M Fld :=
+  match look d.vtk name with
+  | none => .error .runtime
+  | some file => readVtk file.grid file.lines (look d.json name)
+
+/-- one call of a session -/
+inductive DOp where
+  | write (name : String) (f : Fld) (rep : String) (save : Bool)
+  | read (name : String)
+
+/-- file name a call works on -/
+def DOp.name : DOp → String
+  | .write n _ _ _ => n
+  | .read n => n
+
+/-- a failed call leaves the directory as it was; a read never changes it -/
+def Dir.step (rnd : Rat → Rat) (d : Dir) : DOp → Dir × M (Option Fld)
+  | .write name f rep save =>
+    match d.write name f rep save rnd with
+    | .ok d' => (d', .ok none)
+    | .error e => (d, .error e)
+  | .read name => (d, (d.read name).map some)
+
+/-- a session: the results of all calls, in order -/
+def Dir.run (rnd : Rat → Rat) : Dir → List DOp → List (M (Option Fld))
+  | _, [] => []
+  | d, o :: os => (d.step rnd o).2 :: Dir.run rnd (d.step rnd o).1 os
+
+/-- the directory after a session -/
+def Dir.after (rnd : Rat → Rat) : Dir → List DOp → Dir
+  | d, [] => d
+  | d, o :: os => Dir.after rnd (d.step rnd o).1 os
+
 /-! ## spec-layer vocabulary used by the theorems -/
 
 /-- labels that collide neither with each other nor with the fixed array names -/
@@ -422,6 +502,14 @@ def legacyFile (pre mid post : List LLine) (N : Nat → Nat) (X : Nat → List R
   pre ++ ([.coords (N 0), .nums (X 0), .coords (N 1), .nums (X 1), .coords (N 2), .nums (X 2)] ++
     (mid ++ ((if vec then [.vectors] else [.scalars, .alpha]) ++ (rows.map .nums ++ post))))
 
+/-- the same layout with coordinate blocks that run over several lines (`first a` is the line
+after the header of axis `a`, `cont a` the continuation lines) -/
+def legacyFileSplit (pre mid post : List LLine) (N : Nat → Nat) (first : Nat → List Rat) (cont : Nat → List LLine)
+    (vec : Bool) (rows : List (List Rat)) : List LLine :=
+  pre ++ ((.coords (N 0) :: .nums (first 0) :: cont 0) ++ ((.coords (N 1) :: .nums (first 1) :: cont 1) ++
+    ((.coords (N 2) :: .nums (first 2) :: cont 2) ++
+      (mid ++ ((if vec then [.vectors] else [.scalars, .alpha]) ++ (rows.map .nums ++ post))))))
+
 /-- the region `Region(p1, p2)` builds from the bounds of a grid: default names and tolerance -/
 def plainRegion (pmin pmax : List Rat) : Region :=
   { pmin := pmin, pmax := pmax, dims := ["x", "y", "z"], units := ["m", "m", "m"], tol := 1/1000000000000 }
@@ -432,6 +520,13 @@ def legCe (N : Nat → Nat) (c : Nat → Rat) (a : Nat) : Rat := if 1 < N a then
 
 /-- lines among which the legacy reader finds no coordinate header and no `VECTORS` line -/
 def Quiet (l : List LLine) : Prop := ∀ x ∈ l, (∀ c, x ≠ .coords c) ∧ x ≠ .vectors
+
+/-- the flag the reader gives the cell with structured id `t`: `True` without a `valid` array,
+otherwise "entry `t` of the array with index `vi` is non-zero" -/
+def readFlag (g : Grid) (vi : Option Nat) (t : Nat) : Bool :=
+  match vi with
+  | none => true
+  | some q => decide ((g.cell.getD q default).vals.getD t 0 ≠ 0)
 
 /-- the component arrays `to_vtk` adds -/
 def comps (f : Fld) : List VArr :=
